@@ -271,6 +271,18 @@ func GenWrite(r *rec.Rand, p Profile, present []TupleObs, stat func(string)) Op 
 			}
 		}
 	}
+	// a delete whose object lacks the id ("doc:"): accepted by the command layer (only the user
+	// of a delete is validated), a pattern for the memory backend's match
+	if p.PBadItem > 0 && len(present) > 0 && r.Chance(35, 1000) {
+		t := rec.Pick(r, present)
+		for i := 0; i < len(t[0]); i++ {
+			if t[0][i] == ':' {
+				op.Dels = append(op.Dels, Item{Obj: t[0][:i+1], Rel: t[1], User: t[2], Valid: true})
+				stat("del_object_without_id")
+				break
+			}
+		}
+	}
 	if r.Chance(p.PDupKey, 1000) && (len(op.Dels)+len(op.Wrs) > 0) {
 		switch r.Intn(3) {
 		case 0:
@@ -353,8 +365,7 @@ type Runner struct {
 	Mem, Sql *Backend
 	R        *rec.Rand
 	Res      Result
-	aEnd     time.Time
-	bStart   time.Time
+	Times    []OpTime
 }
 
 func NewRunner(seed uint64) (*Runner, error) {
@@ -389,20 +400,20 @@ func (rn *Runner) Present() []TupleObs {
 // Do executes one op on both backends.
 func (rn *Runner) Do(op Op, full bool) {
 	if op.SleepMs > 0 {
-		rn.aEnd = time.Now()
 		time.Sleep(time.Duration(op.SleepMs) * time.Millisecond)
-		rn.bStart = time.Now()
 	}
 	var mo, so Obs
 	switch op.Kind {
 	case KindWrite:
 		// the same observation choices (page sizes) for both backends
 		s := rn.R.Uint64()
+		t0 := time.Now()
 		mo = ExecWrite(rn.Mem, &op, rec.NewRand(s), full, &rn.Res.Probs)
 		so = ExecWrite(rn.Sql, &op, rec.NewRand(s), full, &rn.Res.Probs)
+		rn.Times = append(rn.Times, OpTime{Tick: op.Tick, Start: t0, End: time.Now()})
 	case KindHorizon:
-		mo = ExecHorizon(rn.Mem, &op, rn.aEnd, rn.bStart, &rn.Res.Probs)
-		so = ExecHorizon(rn.Sql, &op, rn.aEnd, rn.bStart, &rn.Res.Probs)
+		mo = ExecHorizon(rn.Mem, &op, rn.Times, &rn.Res.Probs)
+		so = ExecHorizon(rn.Sql, &op, rn.Times, &rn.Res.Probs)
 	}
 	rn.Res.Ops = append(rn.Res.Ops, op)
 	rn.Res.Mem = append(rn.Res.Mem, mo)
